@@ -455,9 +455,15 @@ func cmdCheck(o options, prop string) int {
 		// known finding?
 		matched := false
 		for _, f := range findings {
-			if f.Kind == "finding" && f.Property == prop && f.Obligation == strings.ReplaceAll(g.name, " ", "") {
+			if f.Kind == "finding" && f.Obligation == strings.ReplaceAll(g.name, " ", "") {
 				matched = true
-				knownLines = append(knownLines, fmt.Sprintf("KNOWN-FINDING: property=%s obligation=%s %s", prop, g.name, f.Text))
+				if f.Property == prop {
+					knownLines = append(knownLines, fmt.Sprintf("KNOWN-FINDING: property=%s obligation=%s %s", prop, g.name, f.Text))
+				} else {
+					// the same obligation is generated under several properties' sweeps; the defect is recorded once, under
+					// the property it violates
+					knownLines = append(knownLines, fmt.Sprintf("KNOWN-FINDING: property=%s obligation=%s (recorded under %s) %s", prop, g.name, f.Property, f.Text))
+				}
 				knownNames = append(knownNames, g.name)
 			}
 		}
